@@ -1,5 +1,6 @@
 """Structured generators of the App family (BootP, DHCP, DHCPv6, RTP, VXLAN, ARP, STP) for the wire checks C01–C04.
 Packets are built byte by byte here, independently of libtins.  `n` = approximate number of op lines to emit."""
+from checks import wire_common as wc
 import random
 
 BOUNDARY_LENS = [0, 1, 2, 3, 4, 7, 8, 9, 15, 16, 17, 253, 254, 255]
@@ -491,7 +492,8 @@ def prog_dhcp(rng):
                 f"set 0 routers {','.join(ip4(rng) for _ in range(rng.choice([1, 2, 3, 63]))) if rng.random() < 0.9 else '-'}",
                 f"set 0 domain_name_servers {','.join(ip4(rng) for _ in range(rng.choice([1, 2, 4]))) if rng.random() < 0.9 else '-'}",
                 f"set 0 broadcast {ip4(rng)}", f"set 0 requested_ip {ip4(rng)}",
-                f"set 0 domain_name {data_arg(rng)}", f"set 0 hostname {data_arg(rng)}"]))
+                f"set 0 domain_name {hexs(wc.textish(rng, pick_len(rng, 255)))}",
+                f"set 0 hostname {hexs(wc.textish(rng, pick_len(rng, 255)))}"]))
         if rng.random() < 0.2:
             ops.append("show")
     return ops
